@@ -37,7 +37,11 @@ func main() {
 	noEvidence := flag.Bool("no-evidence", false, "do not write evidence (used by the mutant audit)")
 	list := flag.Bool("list", false, "list properties with a check")
 	dump := flag.String("dump", "", "debug: dump an engine's view (flow, vers, sym)")
+	multi := flag.String("props", "", "audit mode: comma separated property ids (or 'all'); loads the tree once, runs each check without evidence or fixtures, prints '--- <id> exit=<n>' per property")
 	flag.Parse()
+	if *multi != "" {
+		os.Exit(runMulti(*repo, *multi))
+	}
 	if *dump != "" {
 		p, err := Load(*repo, configs["default"])
 		if err != nil {
@@ -127,6 +131,72 @@ func main() {
 		code = finish(*prop, *tier, seed, reps, *verif, time.Since(start).Seconds(), extra)
 	}()
 	os.Exit(code)
+}
+
+// runMulti is the audit mode used by bin/mutcheck and the audit tools: one
+// load of the (scratch) tree, every requested check on it. Fixture controls
+// do not depend on the analysed tree and are skipped here; registered checks
+// never use this mode.
+func runMulti(repo, list string) int {
+	var ids []string
+	if list == "all" {
+		for id := range checks {
+			ids = append(ids, id)
+		}
+		sort.Strings(ids)
+	} else {
+		ids = strings.Split(list, ",")
+	}
+	p, err := Load(repo, configs["default"])
+	if err != nil {
+		fmt.Printf("ERROR: cannot load %s: %v\n", repo, err)
+		return 2
+	}
+	rc := 0
+	for _, id := range ids {
+		fn, ok := checks[id]
+		if !ok {
+			fmt.Printf("--- %s exit=2\nERROR: no check\n", id)
+			rc = 2
+			continue
+		}
+		code := 2
+		var buf strings.Builder
+		func() {
+			old := os.Stdout
+			rd, wr, _ := os.Pipe()
+			os.Stdout = wr
+			done := make(chan struct{})
+			go func() {
+				b := make([]byte, 65536)
+				for {
+					n, err := rd.Read(b)
+					buf.Write(b[:n])
+					if err != nil {
+						break
+					}
+				}
+				close(done)
+			}()
+			defer func() {
+				if e := recover(); e != nil {
+					fmt.Printf("ERROR: analyser panic: %v\n%s\n", e, debug.Stack())
+					code = 2
+				}
+				wr.Close()
+				<-done
+				os.Stdout = old
+			}()
+			r := NewReport(id, "default")
+			fn(p, r)
+			code = summarize(id, []*Report{r})
+		}()
+		fmt.Printf("--- %s exit=%d\n%s", id, code, buf.String())
+		if code != 0 && rc == 0 {
+			rc = 1
+		}
+	}
+	return rc
 }
 
 // summarize prints non-discharged obligations without touching evidence.
